@@ -1,6 +1,7 @@
 import SwcVerif.Gen.AlgoDsu
 import SwcVerif.Gen.AlgoTraverse
 import SwcVerif.Gen.AlgoSort
+import SwcVerif.Gen.AlgoCheckers
 import SwcVerif.Model.Dsu
 import SwcVerif.Model.Traverse
 /-! Driver side of the imperative translator: the definitions GENERATED from the current sources are run on the
@@ -49,8 +50,18 @@ def handleSort (args : List String) : String :=
     | some r => s!"{Proto.showInts r.1.2} / {Proto.showInts r.2}"
   | _, _ => "bad-args"
 
+/-- `ggetdsu ids=.. pids=..` → labels computed by the GENERATED `get_dsu` (`E` = KeyError / fuel) -/
+def handleGetDsu (args : List String) : String :=
+  match Proto.argInts args "ids", Proto.argInts args "pids" with
+  | some ids, some pids =>
+    match get_dsu (ids.length * ids.length + 2) ids pids with
+    | none => "E"
+    | some l => Proto.showInts l
+  | _, _ => "bad-args"
+
 def handle (op : String) (args : List String) : String :=
   match op with
+  | "ggetdsu" => handleGetDsu args
   | "gsort" => handleSort args
   | "gdsu" => handleDsu args
   | "gtrav" => handleTrav args
